@@ -58,6 +58,30 @@ Lemma wrapped_classified : forall p c t, 100 <= c <= 999 ->
   error_code (EWrap p (EReply c t)) = error_code (EReply c t).
 Proof. intros p c t H. exact (conj (is_temp_wrapped p c t H) (error_code_wrapped p c t)). Qed.
 
+(* ---------- errors that are no replies: any text, also empty or shorter than a reply code ---------- *)
+Lemma error_code_short : forall e, (length (err_string (unwrap1 e)) < 3)%nat -> error_code e = 0.
+Proof.
+  intros e H. unfold error_code. destruct (err_string (unwrap1 e)) as [|a [|b [|c t]]]; cbn in H; try lia;
+  destruct (_ || _); reflexivity.
+Qed.
+
+Lemma is_temp_by_first_byte : forall e,
+  is_temp_error true e = match err_string (unwrap1 e) with c :: _ => c =? 52 | [] => false end.
+Proof. intros e. unfold is_temp_error, first_byte. destruct (err_string (unwrap1 e)); reflexivity. Qed.
+
+Lemma enhanced_empty : forall re e sup, err_string (unwrap1 e) = [] -> enhanced_status_code re e sup = [].
+Proof. intros re e sup H. unfold enhanced_status_code. rewrite H. destruct sup; reflexivity. Qed.
+
+(* a text that does not start with three digits and a blank never yields an enhanced status code *)
+Lemma enhanced_needs_reply_shape : forall e sup a t,
+  err_string (unwrap1 e) = a :: t -> is_digit a = false -> enhanced_status_code re_anchored e sup = [].
+Proof.
+  intros e sup a t H Ha. unfold enhanced_status_code. rewrite H. destruct sup; [|reflexivity]. cbn [negb first_byte].
+  destruct (negb _); [reflexivity|].
+  replace (bytes_eqb re_anchored re_anchored) with true by (vm_compute; reflexivity).
+  unfold esc_anchored. destruct t as [|b [|c [|d r]]]; try reflexivity. rewrite Ha. reflexivity.
+Qed.
+
 (* ---------- enhanced status codes ---------- *)
 Lemma enhanced_reply : forall c t sup, 100 <= c <= 999 ->
   enhanced_status_code re_anchored (EReply c t) sup =
@@ -71,7 +95,7 @@ Proof.
   replace ((48 <=? 48 + h) && (48 + h <=? 57)) with true by lia.
   replace ((48 <=? 48 + d) && (48 + d <=? 57)) with true by lia.
   replace ((48 <=? 48 + x) && (48 + x <=? 57)) with true by lia.
-  cbn [andb].
+  cbn [andb N.eqb Pos.eqb].
   destruct ((h =? 2) || (h =? 4) || (h =? 5)) eqn:R.
   - replace (negb ((48 + h =? 50) || (48 + h =? 52) || (48 + h =? 53))) with false by lia. reflexivity.
   - replace (negb ((48 + h =? 50) || (48 + h =? 52) || (48 + h =? 53))) with true by lia. reflexivity.
